@@ -4,7 +4,7 @@
   Property theorems only (helpers: `Lemmas/SchedTrigger.lean`, `Lemmas/SchedTrace.lean`,
   `Lemmas/SchedView.lean`).  Models: `AcnModel/EventCore.lean` (run loop), `AcnModel/Sim.lean` (full
   simulator, scheduler = parameter `View K → Except Err (Schedule K)`), `AcnModel/SchedView.lean`
-  (`consulted`, `handedView`, `runViews`, `infra`).
+  (`consulted`, `handedView`, `runViews`, `infra`), `AcnModel/NetEdits.lean` (`infraInfoAt`).
 
   What the code does (simulator.py:112-141, 203-226), stated precisely:
   * `_process_event` writes the EVENT'S OWN TIMESTAMP into `_last_schedule_update` for plug-in and
@@ -33,7 +33,13 @@
   What the scheduler sees: `view_true` (every dynamic field), `active_order` (sessions are listed in
   station REGISTRATION order), `infra_true` / `infra_ids_named` (every InfrastructureInfo field: matrix,
   limits, phases, voltages, ids, per-station pilots — a function of the static data; 0 x N when there
-  are no constraints, the repaired F3).
+  are no constraints, the repaired F3).  When the network is EDITED while the simulation lives
+  (`AcnModel/NetEdits.lean`: `update_constraint` / `remove_constraint` / `add_constraint` from the
+  `post_charging_update` hook, before `run()`, between two `run()`s): `infra_at_true` (in every period the
+  description is the plain constraint list obtained by replaying construction + the edits made so far, for
+  EVERY history), `infra_at_static`, `infra_at_before`, `infra_at_congr` / `infra_at_between` (no staleness, no
+  anticipation), `infra_at_relimit_last` (a same-name update of the last constraint: same ids, same order,
+  new limit — the ids of a view do not determine it).
 
   Isolation: in the model a view is a VALUE, so isolation holds by construction; what is proved is
   the precise form "the next state is a function of (state, value returned on the handed view)"
@@ -43,6 +49,7 @@
 import AcnProofs.Lemmas.SchedView
 import AcnProofs.Lemmas.SchedInfra
 import AcnProofs.Lemmas.IgnoredEvents
+import AcnProofs.Lemmas.NetEdits
 import Mathlib.Tactic
 
 namespace Acn.C05
@@ -537,6 +544,197 @@ theorem infra_ids_named (cfg : Sim.Cfg K) (nd : NetDesc K) (hnd : (cfg.stations.
   simp [Network.Net.init]
 
 end sim
+
+/-! ## the network EDITED between invocations (`AcnModel/NetEdits.lean`)
+
+  `infra_true` speaks about the network the simulator is built with.  The network object stays editable
+  (`add_constraint` / `remove_constraint` / `update_constraint`, from the `post_charging_update` hook, before
+  `run()`, between two `run()`s); the description handed out in period `t` must be the description of the network
+  AS EDITED SO FAR — nothing older.  The plain-list specification of the network (`Network.Spec`, C12) says what
+  that is; `Network.run_refines` (C12) ties the code's three parallel containers to it for every history. -/
+
+section edits
+open Acn.Sim Acn.Network
+variable {K : Type} [Zero K] [LT K] [DecidableLT K]
+
+/-- **infra_at_true** — for EVERY configuration, EVERY edit history (rejected operations included) and every
+    period `t`: the `InfrastructureInfo` handed out in period `t` describes exactly the constraint list a user
+    obtains by replaying, on paper, the construction of the network and then the edits made before the invocation
+    of period `t`, in the order made (`Spec.run Spec.init (historyAt …)`): the names in that order, the limits in
+    that order, one matrix row per constraint whose entry for station `j` is the coefficient of `j` in the
+    constrained current (0 if absent).  Voltages, phase angles and the per-station part are those of the
+    construction. -/
+theorem infra_at_true (cfg : Sim.Cfg K) (nd : NetDesc K) (edits : List (NetEdit K)) (t : Nat) :
+    let sp := Spec.run Spec.init (historyAt cfg nd edits t)
+    (infraInfoAt cfg nd edits t).stationIds = sp.stations ∧
+    (infraInfoAt cfg nd edits t).constraintIds = sp.cons.map (·.name) ∧
+    (infraInfoAt cfg nd edits t).constraintLimits = sp.cons.map (·.limit) ∧
+    (infraInfoAt cfg nd edits t).constraintMatrix =
+      sp.cons.map (fun c => sp.stations.map (Current.coeff c.cur)) ∧
+    (infraInfoAt cfg nd edits t).voltages = cfg.stations.map (·.voltage) ∧
+    (infraInfoAt cfg nd edits t).phases = nd.phases ∧
+    (infraInfoAt cfg nd edits t).stations = infra cfg := by
+  intro sp
+  have hr := (run_refines (refines_init (K := K)) (historyAt cfg nd edits t)).2
+  rw [← netAt_eq_run] at hr
+  exact ⟨hr.stations, hr.index, hr.mags, hr.rows, rfl, rfl, rfl⟩
+
+/-- constraint edits never change WHICH stations are described, nor their order, voltages, phase angles,
+    pilot ranges: that part of every view is the one of the construction (`infra_true`) -/
+theorem infra_at_static (cfg : Sim.Cfg K) (nd : NetDesc K) (edits : List (NetEdit K)) (t : Nat)
+    (hnd : (cfg.stations.map (·.id)).Nodup) :
+    (infraInfoAt cfg nd edits t).stationIds = cfg.stations.map (·.id) ∧
+    (infraInfoAt cfg nd edits t).stationIds = (infraInfo cfg nd).stationIds ∧
+    (infraInfoAt cfg nd edits t).voltages = (infraInfo cfg nd).voltages ∧
+    (infraInfoAt cfg nd edits t).phases = (infraInfo cfg nd).phases ∧
+    (infraInfoAt cfg nd edits t).stations = (infraInfo cfg nd).stations := by
+  have h1 : (netAt cfg nd edits t).stations = cfg.stations.map (·.id) := by
+    unfold netAt editsInForce
+    rw [run_opsOf_stations, netOf_stations cfg nd hnd]
+  exact ⟨h1, h1.trans (netOf_stations cfg nd hnd).symm, rfl, rfl, rfl⟩
+
+/-- before the first edit comes into force the description is the one of the construction -/
+theorem infra_at_before (cfg : Sim.Cfg K) (nd : NetDesc K) (edits : List (NetEdit K)) (t : Nat)
+    (h : ∀ e ∈ edits, t < e.since) : infraInfoAt cfg nd edits t = infraInfo cfg nd := by
+  have h0 : entriesInForce edits t = [] := by
+    unfold entriesInForce
+    rw [List.filter_eq_nil_iff]
+    intro e he
+    simpa using h e he
+  unfold infraInfoAt infraInfo netAt editsInForce
+  rw [h0]
+  rfl
+
+/-- NO STALENESS, NO ANTICIPATION: the description depends on the history only through the entries in force —
+    two periods between which nothing came into force see the same description … -/
+theorem infra_at_congr (cfg : Sim.Cfg K) (nd : NetDesc K) (edits : List (NetEdit K)) (t t' : Nat)
+    (h : ∀ e ∈ edits, (e.since ≤ t ↔ e.since ≤ t')) :
+    infraInfoAt cfg nd edits t = infraInfoAt cfg nd edits t' := by
+  have h0 : entriesInForce edits t = entriesInForce edits t' := by
+    unfold entriesInForce
+    apply List.filter_congr
+    intro e he
+    simp [h e he]
+  unfold infraInfoAt netAt editsInForce
+  rw [h0]
+
+omit [LT K] [DecidableLT K] in
+/-- … and (history in application order) the network described at a LATER invocation is the network described
+    at the earlier one with exactly the operations that came into force in between applied to it, in order.
+    In particular every one of them is reflected: an implementation that hands out at `t'` what it assembled at
+    `t` is correct only if that list of operations leaves the containers unchanged. -/
+theorem infra_at_between (cfg : Sim.Cfg K) (nd : NetDesc K) (edits : List (NetEdit K))
+    (hs : edits.Pairwise fun a b => a.since ≤ b.since) {t t' : Nat} (h : t ≤ t') :
+    netAt cfg nd edits t' =
+      Net.run (netAt cfg nd edits t) (opsOf (edits.filter fun e => decide (t < e.since ∧ e.since ≤ t'))) := by
+  unfold netAt editsInForce
+  rw [entriesInForce_split edits hs h, opsOf_append, run_append]
+
+/-- **infra_at_relimit_last** — the time-varying site limit: `update_constraint(name, current, limit)` under
+    the SAME name on the LAST constraint (a unique name), coming into force between the invocations of periods
+    `t` and `t'`.  The two invocations see the same constraint ids in the same order and the same stations — and
+    the later one sees the new limit and the new row in the last position (everything else as before).  So the
+    ids (and station ids) of a view do NOT determine it. -/
+theorem infra_at_relimit_last (cfg : Sim.Cfg K) (nd : NetDesc K) (edits : List (NetEdit K)) (t t' T : Nat)
+    (name : String) (c : Current K) (l : K) (ns : List String)
+    (hin : ∀ e ∈ edits, e.since ≤ t) (htT : t < T) (hTt : T ≤ t')
+    (hids : (infraInfoAt cfg nd edits t).constraintIds = ns ++ [name]) (hname : name ∉ ns)
+    (hk : ∀ k ∈ c.keys, k ∈ (infraInfoAt cfg nd edits t).stationIds) :
+    let hist := edits ++ [⟨T, [ConOp.update name c l none]⟩]
+    infraInfoAt cfg nd hist t = infraInfoAt cfg nd edits t ∧
+    (infraInfoAt cfg nd hist t').constraintIds = (infraInfoAt cfg nd hist t).constraintIds ∧
+    (infraInfoAt cfg nd hist t').stationIds = (infraInfoAt cfg nd hist t).stationIds ∧
+    (infraInfoAt cfg nd hist t').constraintLimits = (infraInfoAt cfg nd hist t).constraintLimits.dropLast ++ [l] ∧
+    (infraInfoAt cfg nd hist t').constraintMatrix =
+      (infraInfoAt cfg nd hist t).constraintMatrix.dropLast ++
+        [(infraInfoAt cfg nd hist t).stationIds.map (Current.coeff c)] := by
+  intro hist
+  -- the entries in force at `t` and at `t'`
+  have hall : edits.filter (fun e => decide (e.since ≤ t)) = edits := by
+    rw [List.filter_eq_self]; intro e he; simpa using hin e he
+  have hall' : edits.filter (fun e => decide (e.since ≤ t')) = edits := by
+    rw [List.filter_eq_self]; intro e he; simpa using le_trans (hin e he) (le_trans (le_of_lt htT) hTt)
+  have hf : entriesInForce hist t = entriesInForce edits t := by
+    unfold entriesInForce
+    rw [List.filter_append, List.filter_cons_of_neg (by simpa using htT)]
+    simp
+  have hf' : entriesInForce hist t' = entriesInForce edits t ++ [⟨T, [ConOp.update name c l none]⟩] := by
+    unfold entriesInForce
+    rw [List.filter_append, List.filter_cons_of_pos (by simpa using hTt), hall, hall']
+    simp
+  have hst : infraInfoAt cfg nd hist t = infraInfoAt cfg nd edits t := by
+    unfold infraInfoAt netAt editsInForce; rw [hf]
+  have hhist : historyAt cfg nd hist t' = historyAt cfg nd edits t ++ [Op.update name c l none] := by
+    unfold historyAt editsInForce
+    rw [hf', opsOf_append]
+    simp [opsOf, ConOp.toOp]
+  -- the specification before and after
+  obtain ⟨b1, b2, b3, b4, -, -, -⟩ := infra_at_true cfg nd edits t
+  obtain ⟨a1, a2, a3, a4, -, -, -⟩ := infra_at_true cfg nd hist t'
+  try simp only at b1 b2 b3 b4 a1 a2 a3 a4
+  rw [hhist, spec_run_snoc] at a1 a2 a3 a4
+  generalize Spec.run Spec.init (historyAt cfg nd edits t) = sp at b1 b2 b3 b4 a1 a2 a3 a4
+  rw [b2] at hids
+  obtain ⟨cs, xs, hcons, hcs, hxs⟩ := List.map_eq_append_iff.1 hids
+  obtain ⟨x, rfl, hx⟩ : ∃ x, xs = [x] ∧ x.name = name := by
+    match xs, hxs with
+    | [x], h => exact ⟨x, rfl, by simpa using h⟩
+  subst hx
+  have hupd := spec_update_last sp cs x c l hcons (by rw [hcs]; exact hname) (by rw [← b1]; exact hk)
+  have hstep : (sp.step (Op.update x.name c l none)).1 = { sp with frozen := true, cons := cs ++ [⟨c, l, x.name⟩] } := hupd
+  rw [hstep] at a1 a2 a3 a4
+  try simp only at a1 a2 a3 a4
+  refine ⟨hst, ?_, ?_, ?_, ?_⟩
+  · rw [hst, a2, b2, hcons]; simp
+  · rw [hst, a1, b1]
+  · rw [hst, a3, b3, hcons]; simp
+  · rw [hst, a4, b4, b1, hcons]; simp
+
+/-- non-vacuity (ℚ): stations A, B; "agg" over both at 64 A and an unnamed row on B -/
+def exCfg2 : Sim.Cfg ℚ :=
+  { stations := [⟨"A", .cont 0 (some 32), 208⟩, ⟨"B", .finite [0, 8, 16], 240⟩], evs := [], recomputes := [],
+    maxRecompute := some 2, period := 5, atolCont := 1 / 1000, atolDeadband := 1 / 1000, atolFinite := 1 / 1000,
+    fullEps := 1 / 1000, noise := [] }
+
+def exNd : NetDesc ℚ :=
+  { phases := [30, -90], constraints := [([("A", 1), ("B", 1)], 64, some "agg"), ([("B", 2)], 40, none)] }
+
+/-- the hook of period 2 re-rates the LAST constraint under its own name (40 → 24), the hook of period 5 re-rates
+    "agg" (which moves to the end), an edit between two `run()`s (the first stopped at 9) removes the unnamed row -/
+def exEdits : List (NetEdit ℚ) :=
+  [⟨3, [.update "_const_1" [("B", 2)] 24 none]⟩, ⟨6, [.update "agg" [("A", 1), ("B", 1)] 50 none]⟩, ⟨9, [.remove "_const_1"]⟩]
+
+/-- periods ≤ 2 see the construction, periods 3-5 the same ids with the new limit, periods ≥ 6 the reordered
+    rows, periods ≥ 9 one row -/
+example :
+    (infraInfoAt exCfg2 exNd exEdits 2).constraintLimits = (infraInfo exCfg2 exNd).constraintLimits ∧
+    (infraInfoAt exCfg2 exNd exEdits 2).constraintLimits = [64, 40] ∧
+    (infraInfoAt exCfg2 exNd exEdits 3).constraintIds = ["agg", "_const_1"] ∧
+    (infraInfoAt exCfg2 exNd exEdits 3).constraintLimits = [64, 24] ∧
+    (infraInfoAt exCfg2 exNd exEdits 5).constraintMatrix = [[1, 1], [0, 2]] ∧
+    (infraInfoAt exCfg2 exNd exEdits 6).constraintIds = ["_const_1", "agg"] ∧
+    (infraInfoAt exCfg2 exNd exEdits 6).constraintLimits = [24, 50] ∧
+    (infraInfoAt exCfg2 exNd exEdits 8).constraintMatrix = [[0, 2], [1, 1]] ∧
+    (infraInfoAt exCfg2 exNd exEdits 9).constraintIds = ["agg"] ∧
+    (infraInfoAt exCfg2 exNd exEdits 40).constraintMatrix = [[1, 1]] := by
+  decide +kernel
+
+/-- the hypotheses of `infra_at_static`, `infra_at_between` and `infra_at_relimit_last` (first entry of `exEdits`:
+    `t = 2 < T = 3 ≤ t' = 5`, no earlier entry) hold here, and the conclusion of the latter reads: ids
+    `["agg", "_const_1"]` in both periods, limits `[64, 40]` then `[64, 24]` -/
+example :
+    (exCfg2.stations.map (·.id)).Nodup ∧ (exEdits.Pairwise fun a b => a.since ≤ b.since) ∧
+    (infraInfoAt exCfg2 exNd [] 2).constraintIds = ["agg"] ++ ["_const_1"] ∧ "_const_1" ∉ ["agg"] ∧
+    (∀ k ∈ Current.keys ([("B", 2)] : Current ℚ), k ∈ (infraInfoAt exCfg2 exNd [] 2).stationIds) ∧
+    (infraInfoAt exCfg2 exNd ([] ++ [⟨3, [ConOp.update "_const_1" [("B", 2)] 24 none]⟩]) 5).constraintLimits = [64, 24] := by
+  decide +kernel
+
+example : (infraInfoAt exCfg2 exNd ([] ++ [⟨3, [ConOp.update "_const_1" [("B", 2)] 24 none]⟩]) 5).constraintLimits =
+    (infraInfoAt exCfg2 exNd ([] ++ [⟨3, [ConOp.update "_const_1" [("B", 2)] 24 none]⟩]) 2).constraintLimits.dropLast ++ [24] :=
+  (infra_at_relimit_last exCfg2 exNd [] 2 5 3 "_const_1" [("B", 2)] 24 ["agg"] (by simp) (by decide) (by decide)
+    (by decide +kernel) (by decide) (by decide +kernel)).2.2.2.1
+
+end edits
 
 /-! ### non-vacuity (full model over ℚ; the ideal battery never calls `exp`) -/
 
